@@ -47,6 +47,12 @@ func (c *c15Conn) RemoteAddr() net.Addr { return c.remote }
 
 // c15Session performs one connect / handshake / linger / disconnect cycle of a scripted node.
 func c15Session(srv *p2p.VerifC06Server, btcnet wire.BitcoinNet, id int, seq uint64, linger time.Duration) error {
+	// every fifth session is a node the server turns away in OnVersion (user agent of another chain): its done
+	// message reaches the sync manager for a peer that was never registered there
+	ua := "verif-c15"
+	if seq%5 == 3 {
+		ua = "Bitcoin ABC"
+	}
 	a, b := net.Pipe()
 	nodeAddr := &net.TCPAddr{IP: net.IPv4(10, 15, byte(id>>8), byte(id)), Port: 18333}
 	me := &net.TCPAddr{IP: net.IPv4(10, 15, 255, 254), Port: 8333}
@@ -76,7 +82,7 @@ func c15Session(srv *p2p.VerifC06Server, btcnet wire.BitcoinNet, id int, seq uin
 	v := wire.NewMsgVersion(wire.NewNetAddress(nodeAddr, wire.SFNodeNetwork), wire.NewNetAddress(me, 0), 0xc15000000000+seq, 5)
 	v.Services = wire.SFNodeNetwork
 	v.ProtocolVersion = int32(pver)
-	_ = v.AddUserAgent("verif-c15", "1.0")
+	_ = v.AddUserAgent(ua, "1.0")
 	_ = nodeSide.SetWriteDeadline(time.Now().Add(2 * time.Second))
 	if err := wire.WriteMessage(nodeSide, v, pver, btcnet); err != nil {
 		return err
@@ -87,6 +93,9 @@ func c15Session(srv *p2p.VerifC06Server, btcnet wire.BitcoinNet, id int, seq uin
 		select {
 		case m, ok := <-recv:
 			if !ok {
+				if ua != "verif-c15" {
+					return nil // turned away, as expected
+				}
 				return fmt.Errorf("closed during handshake")
 			}
 			switch m.(type) {
@@ -96,6 +105,9 @@ func c15Session(srv *p2p.VerifC06Server, btcnet wire.BitcoinNet, id int, seq uin
 				gotAck = true
 			}
 		case <-deadline:
+			if ua != "verif-c15" {
+				return nil
+			}
 			return fmt.Errorf("handshake timeout")
 		}
 	}
@@ -189,7 +201,15 @@ func runC15Peers(c *Ctx) error {
 			}
 		}()
 	}
-	wg.Wait()
+	// watchdog: a deadlock (a lock left held, a goroutine waiting for ever) must end as a failure of this run, not as
+	// a hang of the harness
+	fin := make(chan struct{})
+	go func() { wg.Wait(); close(fin) }()
+	select {
+	case <-fin:
+	case <-time.After(dur + 15*time.Second):
+		return fmt.Errorf("c15peers: HANG - sessions or GET /network/peer requests still blocked %s after the end of the run (sessions=%d requests=%d)", 15*time.Second, atomic.LoadUint64(&sessions), atomic.LoadUint64(&requests))
+	}
 	time.Sleep(100 * time.Millisecond)
 	obs := "no-5xx"
 	if fivexx > 0 {
